@@ -1152,31 +1152,47 @@ def show_cases(ctx, rng, count):
 
 
 def triangle_cases(ctx, rng, count):
-    """make_Triangle through show(Triangle, units_length='mm'): both branches, integer vertices"""
+    """make_Triangle through show(Triangle, units_length='mm'): both branches, integer facets on which
+    sqrt(|cross|) is an integer dividing the cross product (exactly representable), in and out of the
+    coordinate planes"""
     out = []
+    quads = [((2, -1, 0), (0, 1, -1), 3), ((3, -2, 0), (0, 2, -1), 7)]     # e1 x e2 = (1,2,2) / (2,3,6), norm 3 / 7
     for t in range(count):
-        sc = rng.choice([1, 1, 7, 40])
-        while True:
-            v = [[rng.randint(-4, 4) * sc for _ in range(3)] for _ in range(3)]
-            a = np.array(v)
-            nrm = np.cross(a[1] - a[0], a[2] - a[1])
-            if np.abs(nrm).max() > 0:
-                break
         kind = t % 4
-        if kind == 0:
-            mag = [0, 0, 0]
-        elif kind == 1:             # exactly along the normal: facet in a coordinate plane
+        off = [rng.randint(-5, 5) for _ in range(3)]
+        if kind in (0, 1):
+            # right triangle with legs a, b in a coordinate plane, a*b = m^2
+            m = rng.choice([1, 2, 3, 6, 10, 30])
+            a = rng.choice([d for d in range(1, m * m + 1) if (m * m) % d == 0])
+            b = m * m // a
             ax = rng.randrange(3)
-            for row in v:
-                row[ax] = v[0][ax]
-            a = np.array(v)
-            nrm = np.cross(a[1] - a[0], a[2] - a[1])
-            if np.abs(nrm).max() == 0:
-                continue
+            u, w = [(1, 2), (2, 0), (0, 1)][ax]
+            e1, e2 = [0, 0, 0], [0, 0, 0]
+            e1[u], e2[w] = a * rng.choice([-1, 1]), b * rng.choice([-1, 1])
+            v0 = off
+            v1 = [v0[i] + e1[i] for i in range(3)]
+            v2 = [v1[i] + e2[i] - e1[i] for i in range(3)]      # v2 - v1 = e2 - e1: cross(e1, e2 - e1) = cross(e1, e2)
             mag = [0, 0, 0]
-            mag[ax] = rng.choice([-2, 1, 3])
+            if kind == 1:
+                mag[ax] = rng.choice([-2, 1, 3])
+        elif kind == 2:
+            (p1, p2, nrm) = quads[rng.randrange(2)]
+            tt = rng.choice([1, 2, 5])
+            perm = rng.sample(range(3), 3)
+            e1 = [nrm * tt * p1[perm[i]] for i in range(3)]
+            e2 = [tt * p2[perm[i]] for i in range(3)]
+            v0 = off
+            v1 = [v0[i] + e1[i] for i in range(3)]
+            v2 = [v1[i] + e2[i] for i in range(3)]
+            mag = [0, 0, 0]
         else:
-            mag = [rng.randint(-3, 3) for _ in range(3)]
+            while True:
+                v0, v1, v2 = ([rng.randint(-40, 40) for _ in range(3)] for _ in range(3))
+                a = np.array([v0, v1, v2])
+                mag = [rng.randint(-3, 3) for _ in range(3)]
+                if np.abs(np.cross(mag, np.cross(a[1] - a[0], a[2] - a[1]))).max() > 0:
+                    break
+        v = [v0, v1, v2]
         tri = magpy.misc.Triangle(magnetization=mag, vertices=v)
         dr = do_show([tri], {"backend": "plotly", "return_fig": True, "units_length": "mm",
                              "style_orientation_show": False})
@@ -1186,8 +1202,63 @@ def triangle_cases(ctx, rng, count):
         got = octa.ints(body[0]["xyz"], tol=1e-6 * max(1.0, np.abs(body[0]["xyz"]).max()))
         out.append((f"(CTri {cv(mag)} {cv(v[0])} {cv(v[1])} {cv(v[2])} {c_vlist(got)})",
                     {"kind": "triangle", "mag": mag, "verts": v, "drawn_vertices": len(got)}))
-        ctx.bump("triangle:" + ("thickened" if len(got) == 6 else "plain"))
+        ctx.bump("triangle:" + ("thickened" if len(got) == 6 else "plain") + (":oblique" if kind == 2 else ""))
     return out
+
+
+def triangle_float_check(ctx, rng, count):
+    """facets on which sqrt|cross| is irrational (outside the exact model): the implementation's offset along the
+    normal is 1e-3*sqrt(|cross|) -- validates the formula the model states, proves nothing"""
+    for _ in range(count):
+        sc = 10.0 ** rng.choice([-3, -1, 0, 1, 2])
+        while True:
+            a = np.array([[rng.uniform(-2, 2) * sc for _ in range(3)] for _ in range(3)])
+            n = np.cross(a[1] - a[0], a[2] - a[1])
+            if np.linalg.norm(n) > 0.3 * sc * sc:
+                break
+        tri = magpy.misc.Triangle(vertices=a)          # not magnetised: the thickened branch
+        dr = do_show([tri], {"backend": "plotly", "return_fig": True, "units_length": "m",
+                             "style_orientation_show": False})
+        xyz = [x for x in dr["traces"] if x["type"] == "mesh3d"][0]["xyz"]
+        nn = np.linalg.norm(n)
+        off = np.abs((xyz - a[0]) @ (n / nn))
+        ctx.case(("triangle-float", a.round(9).tolist()), True)
+        ctx.bump("triangle-float")
+        if len(xyz) != 6 or np.abs(off - 1e-3 * math.sqrt(nn)).max() > 1e-9 * math.sqrt(nn):
+            ctx.add_broken("broken-correspondence", "make_Triangle offset formula",
+                           f"offset along the normal is not 1e-3*sqrt|cross| for vertices {a.tolist()}")
+            return
+
+
+def cuboid_cases(ctx, rng, count):
+    """make_Cuboid through show(Cuboid(dimension=ints)): doubled vertex coordinates and the facet index table"""
+    out = []
+    for _ in range(count):
+        dim = [rng.randint(1, 40) for _ in range(3)]
+        cub = magpy.magnet.Cuboid(polarization=(0, 0, 1), dimension=dim)
+        dr = do_show([cub], {"backend": "plotly", "return_fig": True, "units_length": "m"})
+        body = [x for x in dr["traces"] if x["type"] == "mesh3d"]
+        if len(body) != 1 or "ijk" not in body[0]:
+            raise AssertionError("Cuboid figure without exactly one indexed mesh")
+        out.append((f"(CCuboid {cv(dim)} {c_vlist(octa.ints(2 * body[0]['xyz']))} {c_vlist(body[0]['ijk'].tolist())})",
+                    {"kind": "cuboid", "dim": dim}))
+        ctx.bump("cuboid-table")
+    return out
+
+
+def shapes_model_check(ctx, cases):
+    txt = (CASES_HEADER.replace("Model.DisplayExec.", "Model.DisplayExec Model.DisplayShapes.")
+           + "Definition cases : list scase :=\n" + clist([c for c, _ in cases]).replace("; (C", ";\n (C")
+           + ".\nEval vm_compute in (sfailing cases).\n")
+    ok, out = ctx.coq_eval("c19_shapes", txt)
+    res = octa.parse_z_list(out) if ok else None
+    if res is None:
+        ctx.add_broken("broken-correspondence", "c19_shapes", "model evaluation failed:\n" + out[-1500:])
+        return
+    ctx.count("traces_validated_against_impl", len(cases) - len(res))
+    for bi in res[:5]:
+        ctx.add_broken("broken-correspondence", "DisplayShapes (cuboid table) vs make_Cuboid",
+                       json.dumps(cases[bi][1]) + " :: " + cases[bi][0][:400])
 
 
 def triangle_model_check(ctx, cases):
@@ -1384,15 +1455,16 @@ def run(ctx):
         "case = one figure specification (class, parameters, path, frame selection, unit, backend); distinct by "
         "canonical JSON")
     ctx.partial += ["C19_drawn_copies_partial"]
-    ctx.refuted += ["C19_triangle_on_surface_refuted"]
     ctx.trusted += [
         "translator translate/gen_units.py (_UNIT_PREFIX, get_unit_factor, unit_prefix head, the two call sites "
         "in get_frames -> Gen/GenUnits.v), cross-checked against the real functions on unit strings",
         "hand model coq/Model/DisplayModel.v of get_rot_pos_from_path, place_and_orient_model3d (per vertex), "
         "get_generic_traces3D's placement calls, make_path, rescale_traces, style_temp_edit/get_traces_3D; tied by "
         "correspondence on exact inputs (frames, placement, whole show() of a Polyline read from the plotly figure)",
-        "hand model coq/Model/DisplayTriangle.v of make_Triangle (both branches), tied by correspondence with the "
-        "plotly figure of show(Triangle, units_length='mm') on integer vertices",
+        "hand models coq/Model/DisplayTriangle.v (make_Triangle as of 2fa0af8, exact on facets whose sqrt|cross| is an "
+        "integer dividing the cross product; float check of the offset formula elsewhere) and "
+        "coq/Model/DisplayShapes.v (make_Cuboid vertex/facet table, Polyline line), tied by correspondence with "
+        "plotly figures of show() on integer inputs",
         "NOT modelled (PARTIAL): the other per-class local shape generators (traces_core.make_*, traces_base.py), "
         "group/merge of traces, the backends' conversion; these are covered only by the search oracle on figures",
         "SI prefix table in Model/DisplayUnits.v (si_prefix_spec) and in the harness (SI) are hand-written "
@@ -1423,6 +1495,11 @@ def run(ctx):
         for c, _ in tcs:
             ctx.case(c, True)
         triangle_model_check(ctx, tcs)
+        triangle_float_check(ctx, rng, ctx.n(30, 300))
+        ccs = cuboid_cases(ctx, rng, ctx.n(40, 300))
+        for c, _ in ccs:
+            ctx.case(c, True)
+        shapes_model_check(ctx, ccs)
 
     run_guarded(ctx, corr, "C19 correspondence")
     big = bool(ctx.broken)
